@@ -1543,8 +1543,20 @@ func (vc *VC) callsiteCoverage(c *Contract) {
 // the closest preceding reference (DebugRef) in a dominating block.
 var reCallResult = regexp.MustCompile(`^res_([A-Za-z0-9]+)_([0-9]+)$`)
 
+var reCallArg = regexp.MustCompile(`^callarg([0-9]+)$`)
+
 func (vc *VC) localAt(fr *Frame, site ssa.Instruction, name string) (Val, bool) {
 	sb := site.Block()
+	// pseudo local callarg<k> (callsite clauses only): the k-th operand of the call the clause is checked at
+	// (for a method call operand 0 is the receiver) - what is passed, whatever the source calls it
+	if m := reCallArg.FindStringSubmatch(name); m != nil {
+		call, ok := site.(*ssa.Call)
+		k, _ := strconv.Atoi(m[1])
+		if !ok || call.Call.IsInvoke() || k >= len(call.Call.Args) {
+			return Val{}, false
+		}
+		return vc.value(fr, call.Call.Args[k]), true
+	}
 	// pseudo local res_<Callee>_<n>: the result of the n-th call (in block order) of a function or method
 	// of that name, provided the call dominates the site - a name for values the source leaves unnamed
 	if m := reCallResult.FindStringSubmatch(name); m != nil {
